@@ -2403,8 +2403,14 @@ class Interp:
                 # shape of the target is kept
                 new = self.binop(node.op, cur, rhs, node)
                 dc, dn = self.arr2_dims(cur), (self.arr2_dims(new) if is_arr2(new) else None)
-                if dn is None or not all(concrete_int(a) is not None and concrete_int(a) == concrete_int(b) for a, b in zip(dc, dn)):
-                    raise Unsupported("in-place update of a 2-D array whose shape is not concrete or would change (line %s)" % node.lineno)
+
+                def same_dim(a, b):
+                    if concrete_int(a) is not None and concrete_int(b) is not None:
+                        return concrete_int(a) == concrete_int(b)
+                    return a is b or (is_z3(to_z3num(a)) and is_z3(to_z3num(b)) and to_z3num(a).eq(to_z3num(b)))
+
+                if dn is None or not all(same_dim(a, b) for a, b in zip(dc, dn)):
+                    raise Unsupported("in-place update of a 2-D array whose shape cannot be shown to stay the same (line %s)" % node.lineno)
                 cur.get = self.arr2_reader(new)
                 base = getattr(cur, "transpose_of", None)
                 if base is not None:
